@@ -7,9 +7,9 @@ import (
 	"fmt"
 	"time"
 
+	sdkmath "cosmossdk.io/math"
 	storetypes "cosmossdk.io/store/types"
 	"cosmossdk.io/x/feegrant"
-	sdkmath "cosmossdk.io/math"
 	wasmkeeper "github.com/CosmWasm/wasmd/x/wasm/keeper"
 	codectypes "github.com/cosmos/cosmos-sdk/codec/types"
 	sdk "github.com/cosmos/cosmos-sdk/types"
@@ -382,7 +382,9 @@ func (e *env) templates() map[string]tmpl {
 		return &skywaytypes.MsgLightNodeSaleClaim{Metadata: bm(), EventNonce: 2, EthBlockHeight: 1, Orchestrator: e.B.Acc.String(), ChainReferenceId: ref, SkywayNonce: 2,
 			ClientAddress: e.L.Acc.String(), Amount: sdkmath.NewInt(3), SmartContractAddress: saleAddr, CompassId: world.CompassID}
 	})
-	add("G", nil, func() sdk.Msg { return &skywaytypes.MsgNonceOverrideProposal{Metadata: gm(), ChainReferenceId: ref, Nonce: 9} })
+	add("G", nil, func() sdk.Msg {
+		return &skywaytypes.MsgNonceOverrideProposal{Metadata: gm(), ChainReferenceId: ref, Nonce: 9}
+	})
 	add("G", nil, func() sdk.Msg { return &skywaytypes.MsgReplenishLostGrainsProposal{Metadata: gm()} })
 	add("B", nil, func() sdk.Msg {
 		return world.DepositClaim(B, ref, 2, 1, erc20s[0], 5, otherEth2, e.U.Acc.String())
@@ -419,7 +421,9 @@ func (e *env) templates() map[string]tmpl {
 	})
 	// tokenfactory
 	add("U", nil, func() sdk.Msg { return &tftypes.MsgBurn{Amount: sdk.NewInt64Coin(e.denoms[0], 1), Metadata: um()} })
-	add("U", nil, func() sdk.Msg { return &tftypes.MsgChangeAdmin{Denom: e.denoms[0], NewAdmin: e.L.Acc.String(), Metadata: um()} })
+	add("U", nil, func() sdk.Msg {
+		return &tftypes.MsgChangeAdmin{Denom: e.denoms[0], NewAdmin: e.L.Acc.String(), Metadata: um()}
+	})
 	add("U", nil, func() sdk.Msg { return &tftypes.MsgCreateDenom{Subdenom: "t9", Metadata: um()} })
 	add("U", nil, func() sdk.Msg { return &tftypes.MsgMint{Amount: sdk.NewInt64Coin(e.denoms[0], 4), Metadata: um()} })
 	add("U", nil, func() sdk.Msg {
